@@ -25,53 +25,151 @@ from core import enc_str
 from prompt_toolkit.clipboard import ClipboardData
 from prompt_toolkit.document import Document
 from prompt_toolkit.key_binding.bindings.vi import TextObject, TextObjectType
-from prompt_toolkit.key_binding.vi_state import InputMode
+from prompt_toolkit.key_binding.vi_state import CharacterFind, InputMode
 from prompt_toolkit.selection import SelectionType
 
 import editor as _editor
 
 ID = "C08"
 DRIVER = "drv_c08"
-PROPS = ["Ptk.Props.C08"]
-LEVEL_TEXT = ("Lean 4 theorems over an executable model of TextObject (sorted / operator_range / get_line_numbers / "
-              "cut through Document.cut_selection) and the Vi operators d c y g? gu gU g~ > < with registers: yank "
-              "never edits, delete/change removes exactly text[from:to) and stores exactly it (whole lines, trailing "
-              "newline convention, for linewise), transforms/indents frame, empty span => no-op for every operator, "
-              "operator_range in bounds for every modelled motion; the model is tied to /repo on every run by an "
-              "end-to-end differential correspondence through the real key processor and by the property oracle")
+PROPS = ["Ptk.Props.C08", "Ptk.Props.C08Motions", "Ptk.Props.C08Session", "Ptk.Props.C08Visual"]
+LEVEL_TEXT = ("Lean 4 theorems over an executable model of (1) TextObject (sorted / operator_range / spans_nothing / "
+              "get_line_numbers / cut through Document.cut_selection incl. the per-line BLOCK ranges) and the Vi "
+              "operators d c y g? gu gU g~ ~ > < gq with registers: yank never edits, delete/change removes exactly "
+              "text[from:to) and stores exactly it (whole lines, trailing newline convention, for linewise), "
+              "case/indent/reshape operators frame, empty span or failing motion => no-op for every operator, "
+              "operator_range in bounds for EVERY text object of vi.py except n/N (h l 0 $ ^ w W b B e E f F t T ; , "
+              "iw aw iW aW i( a( .. i\" a\" .. j k G gg ge gE g_ | % N% { } ap H M L gm); (2) a Vi SESSION: the ViState "
+              "(operator_func, operator_arg, last_character_find, registers, input mode, temporary navigation mode) "
+              "and KeyProcessor.arg threaded through arbitrary key sequences (counts, operators, text objects, Escape, "
+              "c-o, unknown keys, typed text, >> << guu gUU g~~): operator_arg is set only while an operator is "
+              "pending, every completed or failed text object and Escape clear operator and counts, a command typed "
+              "into any quiet state refines the one-command model with its OWN counts (2d3w = 6 words), the future "
+              "of a session depends only on buffer, registers, last find and mode; (3) visual mode "
+              "(_operator_in_selection on CHARACTERS / LINES / BLOCK selections, movements in selection mode): "
+              "exact spans for d c y, per-row ranges that partition the text for BLOCK, frame for case/indent. The "
+              "model is tied to /repo on every run by an end-to-end differential correspondence through the real "
+              "key processor (single commands, multi-command sessions comparing the whole ViState, visual "
+              "excursions, direct TextObject calls) and by a model-independent property oracle incl. history "
+              "independence (the same keys in a fresh editor with the same visible state give the same result)")
 LEVEL_NOTE = ("trusted: Lean kernel, axioms propext/Classical.choice/Quot.sound only; the hand-written model "
-              "(validated by the correspondence, not proved equal to the Python); CPython str/re semantics")
+              "(validated by the correspondence, not proved equal to the Python); CPython str/re semantics; "
+              "Window.render_info is replaced by a stub (rows / width are parameters of H M L gm); two known "
+              "findings in visual mode (v$> indents one line too many, visual block + case operator transforms "
+              "the whole range) are modelled as the code behaves, each with a Lean witness and a partial theorem; "
+              "two defects found in round 2 are repaired in /repo (71bdcd7 gm stays on the line, 46db376 d / c "
+              "into an unknown register do nothing) and the theorems about them are full strength")
 RULE = ("exhaustive: every text over {a,B,space,\\n,(,)} up to the tier's length bound x every cursor x every "
-        "modelled motion/text object (with counts none/2/3 and operator counts) under d and typed alone, plus every "
-        "operator (d c y g? gu gU g~ > <, \"x register variants) on a rotating motion subset; every TextObject(start,"
-        "end,type) with in-range offsets called directly; then seeded random texts (<= 40 chars, quotes, brackets, "
-        "wide chars) with random operator x motion x counts incl. motions that are oracle-only (ge gE g_ | % { } ap "
-        "gq ~) and `<f|F|t|T c> <operator> ;|,` sequences that carry the last character find; a case is non-trivial when some operator changes text, cursor or a register")
+        "modelled motion/text object (with counts none/2/3 and operator counts; H M L gm with a stubbed "
+        "render_info) under d and typed alone, plus every operator (d c y g? gu gU g~ > < gq, \"x register "
+        "variants incl. the unknown register \"A) on a rotating motion subset; every TextObject(start,end,type) with "
+        "in-range offsets called directly; sessions: all pairs over a 35-group session alphabet (counted / "
+        "uncounted commands of every operator class, failing motions, movements, lone counts, lone operators, "
+        "Escape, c-o, unknown key, typed text, doubled forms) and counted-start x separator x uncounted-operator "
+        "triples, alternately typed with a flush after every group (whole ViState compared each time) and "
+        "naturally (buffer state compared each time, ViState at the end); visual mode: v / V / c-v x <= 2 "
+        "movements from a 13-movement alphabet x 11 terminals (operators, Escape); then seeded random texts "
+        "(<= 40 chars, quotes, brackets, wide chars, tabs) with random operator x motion x counts (incl. ~ with "
+        "tilde_operator, gq, counts >= 10^6), `<f|F|t|T c> <operator> ;|,` sequences, random sessions of 2-8 "
+        "groups from navigation / insert / temporary-navigation mode, random visual excursions; a case is "
+        "non-trivial when the text is non-empty")
 EXHAUSTIVE = True
-EXHAUSTIVE_SCOPE = {"quick": "alphabet {a,B,space,\\n,(,)}: len<=1 full product operators x motions x counts; len 2 all motions x d, 10 rotating motions per other operator; len 3 all states, rotating subsets (22 motions x d, 2 per other operator); raw TextObjects over {a,space,\\n} len<=4, all in-range offsets x 3 types",
-                    "thorough": "alphabet {a,B,space,\\n,(,)}: len<=1 full product operators x motions x counts, all cursors; len 2 all motions x d, 60 rotating motions per other operator; len 3 all motions x d, 16 rotating motions per other operator; len 4 all states, rotating subsets (16 motions x d, 2 per other operator); raw TextObjects len<=5"}
-TRUSTED = ["harness/c08.py compares text, cursor, clipboard, named registers and insert-mode after every operator",
-           "Ptk/Model/C08.lean is a hand translation of vi.py TextObject/operators and the Document queries they use"]
+EXHAUSTIVE_SCOPE = {"quick": "alphabet {a,B,space,\\n,(,)}: len 0 full product operators x motion instances; len 1 all motion instances x d, 60 rotating per other operator; len 2 120 rotating instances x d, 5 per other operator; len 3 all states, 10 x d + 1 per other operator; raw TextObjects over {a,space,\\n} len<=4, all in-range offsets x 3 types; sessions: all admissible pairs over the 35-group alphabet on 2 texts x 3 cursors, triples 12x10x12 on 1 text x 2 cursors, doubled forms on 6 texts; visual: 2 texts x <=4 cursors x 3 selection types x (11 terminals x (1 + 13 movements) + 169 movement pairs)",
+                    "thorough": "alphabet {a,B,space,\\n,(,)}: len<=1 full product operators x motions x counts, all cursors; len 2 all motions x d, 60 rotating motions per other operator; len 3 all motions x d, 10 rotating motions per other operator; len 4 all states, rotating subsets (12 motions x d, 1 per other operator); raw TextObjects len<=5; sessions: all admissible pairs on 6 texts x 3 cursors, triples on 5 texts x 3 cursors; visual: 5 texts x all cursors x 3 selection types x (11 terminals x (1 + 13 movements) + 169 movement pairs)"}
+TRUSTED = ["harness/c08.py compares text, cursor, clipboard (with type), named registers, input mode and - in sessions - "
+           "operator pending / operator_arg / KeyProcessor.arg / temporary_navigation_mode / last_character_find",
+           "Ptk/Model/C08.lean, C08Session.lean, C08Visual.lean are hand translations of vi.py (TextObject, operator "
+           "and text-object decorators, operators, text objects), vi_state.py (input_mode setter), key_processor.py "
+           "(_call_handler, arg handling, cursor fix, temporary navigation mode), filters/app.py (vi_*_mode) and the "
+           "Document / Buffer functions they use (see MODELLED)",
+           "harness/c08.py track() (key grammar used only to keep generated / shrunk sessions inside the modelled key set)"]
 ASSUMPTIONS = ["CPython str slicing semantics; `re` on the word patterns == maximal class runs (differentially checked)",
                "str.isspace / regex \\s tables regenerated from the interpreter",
                "transform callbacks = ASCII rot13/lower/upper/swapcase in the correspondence (texts use ASCII letters "
-               "and caseless symbols there); theorems hold for every callback"]
-PARTIAL_SCOPE = ["gq (reshape_text), ~ as operator, motions ge gE g_ | % { } ap: end-to-end oracle only (not in the Lean model); n N H M L gm not covered",
-                 "visual-mode operators (_operator_in_selection) and BLOCK selections not modelled",
-                 "register names outside [a-z0-9] (e.g. \"Ad: the deleted text is stored nowhere) are followed by the model but not judged by the oracle",
+               "and caseless symbols there); theorems hold for every callback",
+               "the buffer is not read-only, no digraph is being entered, Buffer.text_width = 0 (gq wraps at 80)",
+               "gq: the only line separator in the text is \\n (str.splitlines also splits at \\r \\v \\f \\x1c-\\x1e \\x85 "
+               "\\u2028 \\u2029, which the generators do not produce)",
+               "int((N * line_count - 1) / 100) of N% and int(min(width / 2, len)) of gm equal the integer "
+               "divisions of the model (exact for operands < 2^53)",
+               "sessions: operator keys typed while another operator is pending carry no register prefix (a "
+               "register name could itself be a text object key); `dd` `cc` `yy` typed without a pause are other "
+               "bindings (C09) and are not generated"]
+PARTIAL_SCOPE = ["n N (search motions) are not modelled; `(` `)` are no text objects in vi.py",
+                 "H M L gm: Window.render_info is a stub in the correspondence (rows and width are parameters of the theorems)",
+                 "gq: frame and no-op theorems only (that the words are preserved is checked by the oracle, not proved); other line separators than \\n not modelled",
+                 "visual mode: j/k and all text objects as movements, one excursion from a fresh state (not threaded through the session model); visual J / x / I / A, `aw` auto-word, macros, digraphs, replace modes, dot-repeat are not modelled; observed, not judged: a text object typed in visual mode (viw, vi( ...) selects one character past its end",
+                 "sessions: keys outside the modelled set (i a x p u . etc.) are not modelled; `j` `k` typed as movements (no operator pending) use Buffer.cursor_down and are only modelled in visual mode",
                  "the cursor position after y / case operators (not part of the property) is compared with the model only",
-                 "dd / cc / yy / D / C / x are separate bindings, not operator+motion (C09)"]
+                 "dd / cc / yy / D / C / x are separate bindings, not operator+motion (C09); their doubled case/indent relatives >> << guu gUU g~~ are modelled here",
+                 "KNOWN FINDINGS (modelled as the code behaves): visual > < indent one line too many when the selection ends on a newline; visual BLOCK + g? gu gU g~ transform the whole range between the corners"]
+ANCHORS = ["src/prompt_toolkit/key_binding/bindings/vi.py", "src/prompt_toolkit/key_binding/vi_state.py",
+           "src/prompt_toolkit/key_binding/key_processor.py", "src/prompt_toolkit/filters/app.py",
+           "src/prompt_toolkit/document.py", "src/prompt_toolkit/buffer.py"]
+_VI = "load_vi_bindings."
+_TOD = "create_text_object_decorator.text_object_decorator.decorator."
+_OPD = "create_operator_decorator.operator_decorator.decorator."
+MODELLED = {
+    "src/prompt_toolkit/key_binding/bindings/vi.py": [
+        "TextObject.selection_type", "TextObject.sorted", "TextObject.operator_range", "TextObject.spans_nothing",
+        "TextObject.get_line_numbers", "TextObject.cut",
+        _TOD + "_apply_operator_to_text_object", _TOD + "_move_in_navigation_mode", _TOD + "_move_in_selection_mode",
+        _OPD + "_operator_in_navigation", _OPD + "_operator_in_selection",
+        _VI + "_back_to_navigation", _VI + "_quick_normal_mode", _VI + "_unknown_text_object", _VI + "_0_arg",
+        _VI + "create_delete_and_change_operators.delete_or_change_operator", _VI + "create_transform_handler._",
+        _VI + "_yank", _VI + "_yank_to_register", _VI + "_indent_text_object", _VI + "_unindent_text_object",
+        _VI + "_reshape", _VI + "_indent", _VI + "_unindent", _VI + "_lowercase_line", _VI + "_uppercase_line",
+        _VI + "_swapcase_line", _VI + "_visual", _VI + "_visual_line", _VI + "_visual_block",
+        _VI + "_up_in_selection", _VI + "_down_in_selection",
+        _VI + "_b", _VI + "_B", _VI + "_dollar", _VI + "_word_forward", _VI + "_WORD_forward", _VI + "_end_of_word",
+        _VI + "_end_of_WORD", _VI + "_inner_word", _VI + "_a_word", _VI + "_inner_WORD", _VI + "_a_WORD",
+        _VI + "_paragraph", _VI + "_start_of_line", _VI + "_hard_start_of_line", _VI + "create_ci_ca_handles.handler",
+        _VI + "_previous_section", _VI + "_next_section", _VI + "_find_next_occurrence",
+        _VI + "_find_previous_occurrence", _VI + "_t", _VI + "_T", _VI + "repeat._", _VI + "_left", _VI + "_down",
+        _VI + "_up", _VI + "_right", _VI + "_top_of_screen", _VI + "_middle_of_screen", _VI + "_end_of_screen",
+        _VI + "_goto_corresponding_bracket", _VI + "_to_column", _VI + "_goto_first_line", _VI + "_goto_last_line",
+        _VI + "_ge", _VI + "_gE", _VI + "_gm", _VI + "_last_line"],
+    "src/prompt_toolkit/key_binding/vi_state.py": ["ViState.input_mode"],
+    "src/prompt_toolkit/key_binding/key_processor.py": [
+        "KeyProcessor._call_handler", "KeyProcessor._fix_vi_cursor_position",
+        "KeyProcessor._leave_vi_temp_navigation_mode", "KeyPressEvent.arg", "KeyPressEvent.arg_present",
+        "KeyPressEvent.append_to_arg_count"],
+    "src/prompt_toolkit/filters/app.py": ["vi_navigation_mode", "vi_insert_mode", "vi_selection_mode",
+                                          "vi_waiting_for_text_object_mode"],
+    "src/prompt_toolkit/document.py": [
+        "Document.current_char", "Document.current_line_before_cursor", "Document.current_line_after_cursor",
+        "Document.current_line", "Document.cursor_position_row", "Document.cursor_position_col",
+        "Document.translate_index_to_position", "Document.translate_row_col_to_index", "Document.on_first_line",
+        "Document.on_last_line", "Document.is_cursor_at_the_end_of_line",
+        "Document.find", "Document.find_backwards", "Document.find_start_of_previous_word",
+        "Document.find_next_word_beginning", "Document.find_next_word_ending", "Document.find_previous_word_ending",
+        "Document.find_boundaries_of_current_word", "Document.find_next_matching_line",
+        "Document.find_previous_matching_line", "Document.get_cursor_left_position",
+        "Document.get_cursor_right_position", "Document.get_cursor_up_position", "Document.get_cursor_down_position",
+        "Document.find_enclosing_bracket_right", "Document.find_enclosing_bracket_left",
+        "Document.find_matching_bracket_position", "Document.get_start_of_document_position",
+        "Document.get_end_of_document_position", "Document.get_start_of_line_position",
+        "Document.get_end_of_line_position", "Document.last_non_blank_of_current_line_position",
+        "Document.get_column_cursor_position", "Document.selection_ranges", "Document.cut_selection",
+        "Document.start_of_paragraph", "Document.end_of_paragraph"],
+    "src/prompt_toolkit/buffer.py": [
+        "Buffer.transform_lines", "Buffer.transform_current_line", "Buffer.transform_region", "Buffer.cursor_up",
+        "Buffer.cursor_down", "Buffer.start_selection", "Buffer.exit_selection", "indent", "unindent", "reshape_text"],
+}
 
 ALPHA = ["a", "B", " ", "\n", "(", ")"]
 RAND_ALPHA = ["a", "B", "c", "d", " ", " ", "\n", "\n", "(", ")", "'", "\"", ".", ",", "_", "9", "\t", "世", "[", "]", "x"]
 
 OPS = ["d", "c", "y", "g?", "gu", "gU", "g~", ">", "<"]
-COUNT_SENSITIVE = {"h", "l", "w", "W", "b", "B", "e", "E", "f", "F", "t", "T", "j", "k", "gg"}
+COUNT_SENSITIVE = {"h", "l", "w", "W", "b", "B", "e", "E", "f", "F", "t", "T", "j", "k", "gg", "ge", "gE", "|", "%", "{", "}", "ap"}
 REPEAT = {";", ","}   # motion = [";"|","] (no previous find) or [";"|",", findkey, findchar, findcount|None]
 NO_MOVE = {"iw", "iW", "aw", "aW", "j", "k", "ib", "ab", "iq", "aq", "ap"}
-LINEWISE = {"j", "k", "G", "gg"}
+LINEWISE = {"j", "k", "G", "gg", "H", "M", "L"}
+SCREEN = {"H": 0, "M": 1, "L": 2}   # index into case["screen"] = [top row, centre row, bottom row, window width]
+# motions that came into the Lean model in round 2 (before: oracle only)
+NEW_MOTIONS = ["ge", "gE", "g_", "|", "%", "{", "}", "ap", "H", "M", "L", "gm"]
 # oracle-only motions (key strings); not sent to the model
-EXTRA_MOTIONS = ["ge", "gE", "g_", "|", "%", "{", "}", "ap"]
+EXTRA_MOTIONS = []
 
 
 # ------------------------------------------------------------------ real editor (one per process)
@@ -94,34 +192,68 @@ def clip_of(t, lines):
     return ClipboardData(t, SelectionType.LINES if lines else SelectionType.CHARACTERS)
 
 
-def drive(text, cur, clip, keys, tilde=False):
-    """fresh navigation-mode state (text, cur, clipboard) -> feed raw keys -> observable state"""
+class RenderInfoStub:
+    """what `H` `M` `L` `gm` read from `Window.render_info` (the harness never renders)"""
+
+    def __init__(self, top, mid, bot, width):
+        self.top, self.mid, self.bot, self.window_width = top, mid, bot, width
+
+    def first_visible_line(self, after_scroll_offset=False):
+        return self.top
+
+    def center_visible_line(self, before_scroll_offset=False, after_scroll_offset=False):
+        return self.mid
+
+    def last_visible_line(self, before_scroll_offset=False):
+        return self.bot
+
+
+def setup(text, cur, clip, tilde=False, regs=None, lf=None, mode="nav", screen=None):
+    """put the (one per process) real editor into a given state; returns (ed, app, vi_state)"""
     ed = get_editor()
     app = ed.app
+    app.layout.current_window.render_info = None if screen is None else RenderInfoStub(*screen)
     ed.buffer.reset(Document(text, cur))
     vs = app.vi_state
     vs.reset()
-    vs.named_registers = {}
-    vs.last_character_find = None
+    vs.named_registers = {k: clip_of(v[0], v[1]) for k, v in (regs or {}).items()}
+    vs.last_character_find = None if lf is None else CharacterFind(lf[0], bool(lf[1]))
     vs.tilde_operator = tilde
-    vs.input_mode = InputMode.NAVIGATION
+    vs.input_mode = InputMode.NAVIGATION if mode == "nav" else InputMode.INSERT
+    vs.temporary_navigation_mode = (mode == "tmp")
     app.clipboard.set_data(clip_of(clip[0], clip[1]))
     app.key_processor.reset()
-    err = None
-    try:
-        ed.feed(keys)
-    except Exception as e:  # a handler raised
-        err = type(e).__name__
-        app.key_processor.reset()
+    return ed, app, vs
+
+
+def snap(ed, app, vs, err=None):
     cd = app.clipboard.get_data()
+    lf = vs.last_character_find
     return {
         "text": ed.buffer.text, "cur": ed.buffer.cursor_position,
         "clip": (cd.text, 1 if cd.type == SelectionType.LINES else 0, cd.type.name),
         "regs": {k: (v.text, 1 if v.type == SelectionType.LINES else 0) for k, v in vs.named_registers.items()},
         "insert": vs.input_mode == InputMode.INSERT,
         "pending": vs.operator_func is not None,
+        "oparg": vs.operator_arg, "arg": app.key_processor.arg, "tmp": vs.temporary_navigation_mode,
+        "lf": None if lf is None else (lf.character, 1 if lf.backwards else 0),
+        "kbuf": len(app.key_processor.key_buffer),
         "err": err,
     }
+
+
+def drive(text, cur, clip, keys, tilde=False, regs=None, lf=None, mode="nav", flush=False, screen=None):
+    """fresh state (text, cur, clipboard[, registers, last find, mode]) -> feed raw keys -> observable state"""
+    ed, app, vs = setup(text, cur, clip, tilde, regs, lf, mode, screen)
+    err = None
+    try:
+        ed.feed(keys)
+        if flush:
+            ed.flush()
+    except Exception as e:  # a handler raised
+        err = type(e).__name__
+        app.key_processor.reset()
+    return snap(ed, app, vs, err)
 
 
 # ------------------------------------------------------------------ ops
@@ -157,8 +289,12 @@ def op_keys(op):
     return s + motion_keys(m)
 
 
-def motion_tokens(m):
+def motion_tokens(m, screen=None):
     k = m[0]
+    if k in SCREEN:
+        return f"{k} {opt(None if screen is None else screen[SCREEN[k]])}"
+    if k == "gm":
+        return f"gm {opt(None if screen is None else screen[3])}"
     if k in REPEAT:
         return f"rep {1 if k == ',' else 0}"
     if k in ("f", "F", "t", "T", "iq", "aq"):
@@ -173,7 +309,8 @@ def opt(v):
 
 
 def is_extra(op):
-    return op[1] in ("gq", "~") or op[4] in EXTRA_MOTIONS
+    # gq after `;` / `,` with a remembered find goes through the e2ep protocol, which has no gq
+    return (op[1] == "gq" and op[4] in REPEAT and len(op) == 8) or op[4] in EXTRA_MOTIONS
 
 
 def base_motions():
@@ -187,6 +324,7 @@ def base_motions():
         ms.append(["ab", "(", ")", key])
     ms.append(["ib", "[", "]", "["])
     ms.append(["iq", "'"])
+    ms += [[k] for k in NEW_MOTIONS]
     # repeat motions: without and with a remembered character find
     ms.append([";"])
     ms.append([","])
@@ -222,8 +360,8 @@ INST = motion_instances()
 
 def op_variants():
     out = []
-    for name in OPS:
-        for reg in ([None, "a"] if name in ("d", "c", "y") else [None]):
+    for name in OPS + ["gq"]:
+        for reg in ([None, "a", "A"] if name in ("d", "y") else [None, "a"] if name == "c" else [None]):
             if not (name == "d" and reg is None):
                 out.append((name, reg))
     return out
@@ -264,7 +402,7 @@ def rand_motion(rng):
             return [rng.choice(";,")]
         ch = rng.choice([c for c in RAND_ALPHA if c not in ("\n", "\t")])
         return [rng.choice(";,"), rng.choice("fFtT"), ch, rng.choice([None, None, 2, 3])]
-    return [rng.choice(EXTRA_MOTIONS)]
+    return [rng.choice(NEW_MOTIONS)]
 
 
 def rand_op(rng):
@@ -272,12 +410,18 @@ def rand_op(rng):
     while m[0] in ("f", "F", "t", "T") and m[1] in ("\n", "\t"):
         m = rand_motion(rng)
     name = rng.choice(OPS + ["d", "d", "c", "y", "gq", "~"])
-    reg = rng.choice([None, None, None, "a", "z", "0", "7"]) if name in ("d", "c", "y") else None
+    reg = rng.choice([None, None, None, None, "a", "a", "z", "0", "7", "A", "-"]) if name in ("d", "c", "y") else None
     oa = rng.choice([None, None, None, 2, 3, 5, 12, 1000, 1000000])
     ma = rng.choice([None, None, None, 2, 3, 4, 11, 1000, 2000000])
     if m[0] in ("0", "G"):
         ma = None   # `20` is a count; `3G` is bound to go-to-history-line
     return [oa, name, reg, ma] + m
+
+
+def rand_screen(rng):
+    if rng.randrange(3) == 0:
+        return None
+    return [rng.randrange(0, 6), rng.randrange(0, 6), rng.randrange(0, 8), rng.choice([0, 1, 2, 5, 9, 80])]
 
 
 def rand_text(rng):
@@ -310,11 +454,52 @@ def raw_tos(n, cur):
 
 
 # per tier: text length -> (number of `d` motion instances, instances per other operator); None = all
-PLAN = {"quick": {0: (None, None), 1: (None, None), 2: (None, 10), 3: (22, 2)},
-        "thorough": {0: (None, None), 1: (None, None), 2: (None, 60), 3: (None, 16), 4: (16, 2)}}
+PLAN = {"quick": {0: (None, None), 1: (None, 60), 2: (120, 5), 3: (10, 1)},
+        "thorough": {0: (None, None), 1: (None, None), 2: (None, 60), 3: (None, 10), 4: (12, 1)}}
+
+
+def interleave(a, b):
+    """merge two case lists so that both are spread evenly over the result (core evaluates
+    consecutive chunks in parallel: the expensive cases must not sit in one chunk)"""
+    out, i, j = [], 0, 0
+    na, nb = len(a), len(b)
+    while i < na or j < nb:
+        if j >= nb or (i < na and i * nb <= j * na):
+            out.append(a[i])
+            i += 1
+        else:
+            out.append(b[j])
+            j += 1
+    return out
+
+
+_CASES_CALLS = [0]
+SEARCH_CAP = 15000
 
 
 def cases(tier, rng):
+    """the first call is the run itself; core calls cases("thorough") once more, oracle only, when
+    a proof or the correspondence broke and no violation was seen: that search is capped (an evenly
+    spread sample of the thorough generator) so that the verdict comes within minutes"""
+    _CASES_CALLS[0] += 1
+    full = all_cases(tier, rng)
+    if tier == "thorough" and _CASES_CALLS[0] > 1 and len(full) > SEARCH_CAP:
+        k = -(-len(full) // SEARCH_CAP)
+        return full[::k]
+    return full
+
+
+def all_cases(tier, rng):
+    salt = rng.randrange(1000)
+    single = list(cases_single(tier, rng))
+    # sessions: several commands typed into one editor / one ViState
+    sess = list(sess_exhaustive(tier, salt)) + list(sess_random(rng, 600 if tier == "quick" else 12000))
+    # visual mode: one excursion  v|V|c-v  movements  operator|Escape
+    vis = list(vis_exhaustive(tier, salt)) + list(vis_random(rng, 500 if tier == "quick" else 10000))
+    return interleave(single, interleave(sess, vis))
+
+
+def cases_single(tier, rng):
     quick = tier == "quick"
     plan = PLAN[tier]
     salt = rng.randrange(1000)
@@ -325,6 +510,7 @@ def cases(tier, rng):
             for cur in range(n + 1):
                 salt += 1
                 yield {"k": "e2e", "text": text, "cur": cur, "clip": ["zz", 0],
+                       "screen": [None, [0, 1, 2, 3], [1, 1, 3, 0], [2, 0, 1, 5]][salt % 4],
                        "ops": state_ops(salt, n_d, n_other)}
     # direct TextObject calls
     rawlen = 4 if quick else 5
@@ -333,13 +519,13 @@ def cases(tier, rng):
             text = "".join(tup)
             for cur in range(n + 1):
                 yield {"k": "raw", "text": text, "cur": cur, "tos": raw_tos(n, cur)}
-    nrand = 1000 if quick else 18000
+    nrand = 1000 if quick else 14000
     for _ in range(nrand):
         text = rand_text(rng)
         cur = rng.choice([0, len(text), rng.randrange(0, len(text) + 1), rng.randrange(0, len(text) + 1)])
         clip = rng.choice([["zz", 0], ["", 0], ["old\nline", 1]])
         ops = [rand_op(rng) for _ in range(rng.randrange(4, 12))]
-        yield {"k": "e2e", "text": text, "cur": cur, "clip": clip, "ops": ops}
+        yield {"k": "e2e", "text": text, "cur": cur, "clip": clip, "screen": rand_screen(rng), "ops": ops}
     for _ in range(200 if quick else 3000):
         text = rand_text(rng)[:12]
         cur = rng.randrange(0, len(text) + 1)
@@ -351,12 +537,17 @@ def cases(tier, rng):
 # ------------------------------------------------------------------ correspondence
 def model_lines(case):
     out = []
+    if case["k"] == "sess":
+        return [sess_model_line(case)] if track(case) else []
+    if case["k"] == "vis":
+        return [vis_model_line(case)] if vis_split(case) is not None else []
     t, c = enc_str(case["text"]), case["cur"]
     if case["k"] == "raw":
         for s, e, ty in case["tos"]:
             out.append(f"raw {t} {c} {s} {e} {ty}")
         return out
     clip = case["clip"]
+    scr = case.get("screen")
     for op in case["ops"]:
         if is_extra(op):
             continue
@@ -370,9 +561,9 @@ def model_lines(case):
                 out.append(f"mvp {t} {c} {opt(m[3])} {m[1]} {ord(m[2])} {opt(op[3])} {rev}")
             continue
         out.append(f"e2e {t} {c} {enc_str(clip[0])} {clip[1]} {opt(op[0])} {op[1]} "
-                   f"{regtok} {opt(op[3])} {motion_tokens(m)}")
+                   f"{regtok} {opt(op[3])} {motion_tokens(m, scr)}")
         if op[1] == "d" and op[2] is None and op[0] is None and m[0] not in NO_MOVE:
-            out.append(f"mv {t} {c} {opt(op[3])} {motion_tokens(m)}")
+            out.append(f"mv {t} {c} {opt(op[3])} {motion_tokens(m, scr)}")
     return out
 
 
@@ -396,7 +587,8 @@ def run_case(case):
         return _CACHE["res"]
     res = []
     for op in case["ops"]:
-        r = drive(case["text"], case["cur"], case["clip"], op_keys(op), tilde=(op[1] == "~"))
+        scr = case.get("screen")
+        r = drive(case["text"], case["cur"], case["clip"], op_keys(op), tilde=(op[1] == "~"), screen=scr)
         mvr = None
         m = op[4:]
         pre = prefix_keys(m)
@@ -404,7 +596,7 @@ def run_case(case):
         r["base_cur"] = drive(case["text"], case["cur"], case["clip"], pre)["cur"] if pre else case["cur"]
         if op[1] == "d" and op[2] is None and op[0] is None and m[0] not in NO_MOVE:
             mvr = drive(case["text"], case["cur"], case["clip"],
-                        pre + ("" if op[3] is None else str(op[3])) + motion_keys(m))
+                        pre + ("" if op[3] is None else str(op[3])) + motion_keys(m), screen=scr)
         res.append((r, mvr))
     _CACHE["case"], _CACHE["res"] = case, res
     return res
@@ -412,6 +604,10 @@ def run_case(case):
 
 def impl_lines(case):
     out = []
+    if case["k"] == "sess":
+        return [sess_impl_line(case)] if track(case) else []
+    if case["k"] == "vis":
+        return [vis_impl_line(case)] if vis_split(case) is not None else []
     if case["k"] == "raw":
         ed = get_editor()
         for s, e, ty in case["tos"]:
@@ -464,6 +660,8 @@ def fails(text, cur, m, count, has_count=False):
     """independent (Vi manual) notion of 'the motion fails or spans nothing'; None = no opinion"""
     k = m[0]
     ls, le = line_start(text, cur), line_end(text, cur)
+    if k == "|":
+        return ls + min(count - 1, le - ls) == cur
     if k == "h" or k == "0":
         return cur == ls
     if k in ("l", "$"):
@@ -507,11 +705,14 @@ def fails(text, cur, m, count, has_count=False):
     return None
 
 
-def span_spec(text, cur, m, count):
+def span_spec(text, cur, m, count, screen=None):
     """(a, b, linewise) the Vi manual gives for the simple motions; None = no opinion.
     Only called when the motion does not fail."""
     k = m[0]
     ls, le = line_start(text, cur), line_end(text, cur)
+    if k == "|":
+        tgt = ls + min(count - 1, le - ls)
+        return (min(cur, tgt), max(cur, tgt), False)
     if k == "h":
         return (max(ls, cur - count), cur, False)
     if k == "l":
@@ -547,6 +748,11 @@ def span_spec(text, cur, m, count):
             r1, r2 = max(0, row - count), row
         elif k == "G":
             r1, r2 = row, last
+        elif k in SCREEN:
+            # the line the window reports (top / centre / bottom); without a rendered window:
+            # the first line for H and M, the last line for L
+            tgt = (last if k == "L" else 0) if screen is None else min(last, screen[SCREEN[k]])
+            r1, r2 = min(row, tgt), max(row, tgt)
         else:
             tgt = min(last, count - 1)
             r1, r2 = min(row, tgt), max(row, tgt)
@@ -592,15 +798,17 @@ def d_spans(text, cur, d, reg=None):
     return removed_spans(text, d["text"], cur)
 
 
-def check_op(case, op, r, dref):
-    """violations of the property for one operator run; dref() = result of d + the same motion"""
+def check_op(case, op, r, dref, keys=None):
+    """violations of the property for one operator run; dref() = result of d + the same motion;
+    case["regs0"] = named registers before the run (default: none)"""
     text, clip = case["text"], case["clip"]
+    regs0 = {k: tuple(x) for k, x in case.get("regs0", {}).items()}
     oa, name, reg, ma, m = op[0], op[1], op[2], op[3], op[4:]
     # a leading count is a key handler of its own: the cursor is normalised after it
     base = r.get("base_cur", case["cur"])
     cur = vi_fix(text, base) if oa is not None else base
     v = []
-    keys = op_keys(op)
+    keys = keys or op_keys(op)
 
     def bad(site, cond, msg):
         v.append({"signature": f"{site} | {cond}",
@@ -622,8 +830,11 @@ def check_op(case, op, r, dref):
     clip_before = (clip[0], clip[1])
     new_clip = (r["clip"][0], r["clip"][1])
     stored = new_clip if reg is None else r["regs"].get(reg)
-    others_ok = (r["regs"] == {} if reg is None else (new_clip == clip_before and set(r["regs"]) <= {reg}))
-    untouched = (new_clip == clip_before and r["regs"] == {})
+    stored_before = clip_before if reg is None else regs0.get(reg)
+    others_ok = (r["regs"] == regs0 if reg is None else
+                 (new_clip == clip_before and
+                  {k: x for k, x in r["regs"].items() if k != reg} == {k: x for k, x in regs0.items() if k != reg}))
+    untouched = (new_clip == clip_before and r["regs"] == regs0)
 
     def cur_ok(expected):
         return nc == expected or (not r["insert"] and nc == vi_fix(nt, expected))
@@ -645,6 +856,12 @@ def check_op(case, op, r, dref):
         if not others_ok:
             bad(site, "other register touched", "delete wrote to a register it was not asked to")
         spans = removed_spans(text, nt, cur, 1 if m[0] in TEXT_OBJECTS else 0)
+        if m[0] == "gm" and vi_fix(text, cur) == cur and spans and all("\n" in text[a:b] for a, b in spans):
+            # `gm` is a motion inside the cursor line; from a navigation-mode cursor (on a character
+            # of the line, or on an empty line) its span cannot contain a line break
+            bad("gm text object", "the inclusive span runs past the last character of the line",
+                "gm never leaves the line, but the operator removed a line break")
+            return v
         if not spans:
             bad(site, "not one contiguous span at the cursor", "new text is not text[:a]+text[b:] with a<=cursor<=b")
             return v
@@ -659,7 +876,7 @@ def check_op(case, op, r, dref):
                 continue
             if not cur_ok(a):
                 continue
-            unchanged = (stored is None) or (reg is None and stored == clip_before)
+            unchanged = (stored is None) or (stored == stored_before)
             at_ls = a == 0 or text[a - 1] == "\n"
             at_le = b == len(text) or text[b - 1] == "\n"
             if lw or (stored is not None and stored[1] == 1):
@@ -683,7 +900,7 @@ def check_op(case, op, r, dref):
             else:
                 bad(site, "register != removed characters",
                     "register/clipboard does not hold exactly the removed span, or cursor not at its start")
-        sp = span_spec(text, cur, m, count) if f is False else None
+        sp = span_spec(text, cur, m, count, case.get("screen")) if (f is False or m[0] in SCREEN) else None
         if sp is not None:
             a, b, _ = sp
             if nt != text[:a] + text[b:]:
@@ -825,14 +1042,44 @@ def oracle_raw(case):
     return out
 
 
+def is_reg_name(ch):
+    return len(ch) == 1 and (ch in "abcdefghijklmnopqrstuvwxyz" or ch in "0123456789")
+
+
+def check_bad_register(case, op, r, keys=None, regs0=None):
+    """`"X<operator><motion>` with a register name that does not exist: whatever is removed from
+    the text must be kept somewhere (the property: 'places exactly the removed characters in the
+    register'); a yank must not edit"""
+    if r["err"] or r["pending"]:
+        return []
+    text, nt = case["text"], r["text"]
+    regs0 = regs0 or {}
+    keys = keys or op_keys(op)
+    if op[1] == "y":
+        if nt != text:
+            return [{"signature": "yank operator | text edited",
+                     "msg": f"text={text!r} cur={case['cur']} keys={keys!r} -> text={nt!r}"}]
+        return []
+    if nt != text and (r["clip"][0], r["clip"][1]) == tuple(case["clip"]) and \
+            {k: tuple(x) for k, x in r["regs"].items()} == {k: tuple(x) for k, x in regs0.items()}:
+        return [{"signature": "delete_or_change_operator | unknown register name: the removed text is stored nowhere",
+                 "msg": f"text={text!r} cur={case['cur']} keys={keys!r} -> text={nt!r} clip={r['clip']!r} regs={r['regs']!r}"}]
+    return []
+
+
 def oracle(case):
+    if case["k"] == "sess":
+        return oracle_sess(case)
+    if case["k"] == "vis":
+        return oracle_vis(case)
     if case["k"] != "e2e":
         return oracle_raw(case)
     res = run_case(case)
     dcache = {}
     v = []
     for op, (r, mvr) in zip(case["ops"], res):
-        if op[2] is not None and not (op[2].islower() or op[2].isdigit()):
+        if op[2] is not None and not is_reg_name(op[2]):
+            v += check_bad_register(case, op, r)
             continue
 
         def dref(op=op):
@@ -845,7 +1092,7 @@ def oracle(case):
                         hit = r2
                         break
                 if hit is None:
-                    hit = drive(case["text"], case["cur"], case["clip"], op_keys(dop))
+                    hit = drive(case["text"], case["cur"], case["clip"], op_keys(dop), screen=case.get("screen"))
                 dcache[key] = hit
             return dcache[key]
 
@@ -864,7 +1111,787 @@ def oracle(case):
     return out
 
 
+# ------------------------------------------------------------------ sessions (several commands, one ViState)
+# a session case: {"k": "sess", "text", "cur", "clip", "lf": None|[c, bw], "mode": "nav"|"ins"|"tmp",
+#                  "flush": 0|1, "ops": [group, ...]}
+# groups:  ["cmd", opArg, opName, reg, motArg, *motion]   a whole  [count]["x]operator[count]motion
+#          ["o", opName, reg]      the operator key sequence alone
+#          ["mv", motArg, *motion] [count] text-object keys (a movement, or the text object of a pending operator)
+#          ["n", int]              count digits alone
+#          ["esc"] ["co"] ["Z"]    Escape, c-o, a key without binding
+#          ["ins", str]            printable text (insert mode)
+# flush = 1: a flush (what the `timeoutlen` timer does) follows every group, so that the handler of
+# an operator key that is also a prefix of a longer binding (d of dd, gu of guu) has run and the
+# whole ViState can be compared after every group; flush = 0: natural typing, the internal state is
+# compared after the final flush only.
+PREFIX_OPS = {"d", "c", "y", ">", "<", "gu", "gU", "g~"}   # operator keys that start a longer binding
+
+
+def group_keys(g):
+    k = g[0]
+    if k == "cmd":
+        return op_keys(g[1:])
+    if k == "o":
+        return ('"' + g[2] if g[2] is not None else "") + g[1]
+    if k == "mv":
+        return ("" if g[1] is None else str(g[1])) + motion_keys(g[2:])
+    if k == "n":
+        return str(g[1])
+    if k == "esc":
+        return "\x1b"
+    if k == "co":
+        return "\x0f"
+    if k == "Z":
+        return "Z"
+    if k == "ins":
+        return g[1]
+    if k == "dbl":
+        return ("" if g[1] is None else str(g[1])) + g[2]
+    raise ValueError(g)
+
+
+def digit_pieces(n):
+    return [] if n is None else [f"D {d}" for d in str(n)]
+
+
+def group_pieces(g, scr=None):
+    """model keys of a group (driver tokens, one piece per key binding)"""
+    k = g[0]
+    if k == "cmd":
+        oa, name, reg, ma, m = g[1], g[2], g[3], g[4], g[5:]
+        return (digit_pieces(oa) + [f"O {name} {opt(None if reg is None else ord(reg))}"] + digit_pieces(ma)
+                + ["M " + motion_tokens(m, scr)])
+    if k == "o":
+        return [f"O {g[1]} {opt(None if g[2] is None else ord(g[2]))}"]
+    if k == "mv":
+        return digit_pieces(g[1]) + ["M " + motion_tokens(g[2:], scr)]
+    if k == "n":
+        return digit_pieces(g[1])
+    if k == "dbl":
+        return digit_pieces(g[1]) + ["B " + g[2]]
+    return {"esc": ["E"], "co": ["C"], "Z": ["U"]}.get(k) or ["T " + enc_str(g[1])]
+
+
+def track(case):
+    """which groups the key model covers, decided from the key grammar alone (used to keep generated
+    and shrunk sessions inside the modelled key set): returns False when some group is typed in a
+    state where it means something else (`iw` without operator = `i` + `w`, text in navigation
+    mode, an operator key in insert mode, `dd`)."""
+    mode, pend, arg, last = case.get("mode", "nav"), None, False, None
+    for g in case["ops"]:
+        k = g[0]
+        if k in ("cmd", "o"):
+            name, reg = (g[2], g[3]) if k == "cmd" else (g[1], g[2])
+            if name in ("gq", "~") or (k == "cmd" and is_extra(g[1:])):   # (`~` needs tilde_operator)
+                return False
+            if pend or mode == "ins":
+                if not (pend and k == "o" and reg is None):
+                    return False
+                if not case.get("flush") and last is not None and last[0] == "o" and last[2] is None \
+                        and last[1] in PREFIX_OPS:
+                    return False   # typed without a pause, `d` `d` is the binding `dd`
+                arg = False        # _unknown_text_object: the count is consumed
+            else:
+                # (46db376: `"Xc` with a name that is no register does nothing, also no insert mode)
+                pend, arg = (name if (name != "c" or reg is None or is_reg_name(reg)) else "c-noop"), False
+        if k in ("cmd", "mv"):
+            m = g[5:] if k == "cmd" else g[2:]
+            cnt = g[4] if k == "cmd" else g[1]
+            if m[0] in EXTRA_MOTIONS or (m[0] in REPEAT and len(m) != 1):
+                return False
+            if m[0] == "0" and (cnt is not None or arg):
+                return False       # `0` after digits is one more digit
+            if m[0] == "G" and (cnt is not None or arg or (k == "cmd" and g[1] is not None)):
+                return False       # <count>G is go-to-history-line
+            if pend:
+                mode = "ins" if (pend == "c" or mode in ("tmp", "ins")) else "nav"
+                pend = None
+            else:
+                if mode == "ins" or m[0] in NO_MOVE:
+                    return False
+                if mode == "tmp":
+                    mode = "ins"
+            arg = False
+        elif k == "n":
+            if mode == "ins" and not pend:
+                return False
+            arg = True
+        elif k == "esc":
+            mode, pend, arg = "nav", None, False
+        elif k == "co":
+            if not pend:
+                mode = {"ins": "tmp", "tmp": "ins", "nav": "nav"}[mode]
+            arg = False
+        elif k == "Z":
+            if pend:
+                arg = False
+            elif mode == "ins":
+                return False
+        elif k == "ins":
+            if pend or mode != "ins":
+                return False
+        elif k == "dbl":
+            if mode == "ins" and not pend:
+                return False
+            if pend and not case.get("flush") and last is not None and last[0] == "o" and last[2] is None \
+                    and last[1] in PREFIX_OPS:
+                return False
+            if not pend and mode == "tmp":
+                mode = "ins"
+            arg = False
+        last = g
+    return True
+
+
+def sess_model_line(case):
+    lf = case.get("lf")
+    mode = case.get("mode", "nav")
+    head = (f"sess {1 if case.get('flush') else 0} {enc_str(case['text'])} {case['cur']} "
+            f"{enc_str(case['clip'][0])} {case['clip'][1]} "
+            + ("N 0" if lf is None else f"{ord(lf[0])} {1 if lf[1] else 0}")
+            + f" {0 if mode == 'nav' else 1} {1 if mode == 'tmp' else 0}")
+    pieces = []
+    for g in case["ops"]:
+        pieces += group_pieces(g, case.get("screen")) + ["."]
+    pieces.append(".")
+    return head + " / " + " / ".join(pieces)
+
+
+def sess_state(r, full):
+    if r["err"]:
+        return "err"
+    s = st_line(r)
+    if full:
+        lf = r["lf"]
+        s += (f" P{1 if r['pending'] else 0} {opt(r['oparg'])} {opt(r['arg'])} {1 if r['tmp'] else 0} "
+              + ("N" if lf is None else f"{ord(lf[0])}:{lf[1]}"))
+    return s
+
+
+_SCACHE = {"case": None, "res": None}
+
+
+def run_session(case):
+    """the session on the real editor: the state after every group + after the final flush"""
+    if _SCACHE["case"] is case:
+        return _SCACHE["res"]
+    ed, app, vs = setup(case["text"], case["cur"], case["clip"], lf=case.get("lf"), mode=case.get("mode", "nav"),
+                        screen=case.get("screen"))
+    snaps = [snap(ed, app, vs)]
+    err = None
+    for g in case["ops"]:
+        if err is None:
+            try:
+                ed.feed(group_keys(g))
+                if case.get("flush"):
+                    ed.flush()
+            except Exception as e:
+                err = type(e).__name__
+                app.key_processor.reset()
+        snaps.append(snap(ed, app, vs, err))
+    if err is None:
+        try:
+            ed.flush()
+        except Exception as e:
+            err = type(e).__name__
+            app.key_processor.reset()
+    snaps.append(snap(ed, app, vs, err))
+    _SCACHE["case"], _SCACHE["res"] = case, snaps
+    return snaps
+
+
+def drive_groups(text, cur, clip, groups, flush, regs=None, lf=None, mode="nav", screen=None):
+    """the key groups typed into a fresh editor in the given state, with the same flush discipline
+    as a session (flush after every group, or only at the end)"""
+    ed, app, vs = setup(text, cur, clip, False, regs, lf, mode, screen)
+    err = None
+    try:
+        for g in groups:
+            ed.feed(group_keys(g))
+            if flush:
+                ed.flush()
+        ed.flush()
+    except Exception as e:
+        err = type(e).__name__
+        app.key_processor.reset()
+    return snap(ed, app, vs, err)
+
+
+def sess_impl_line(case):
+    snaps = run_session(case)
+    full = bool(case.get("flush"))
+    out = [sess_state(r, full) for r in snaps[1:-1]] + [sess_state(snaps[-1], True)]
+    return " | ".join(out)
+
+
+def quiescent(r):
+    return not r["err"] and not r["pending"] and r["arg"] is None and r["kbuf"] == 0
+
+
+def snap_mode(r):
+    return "tmp" if r["tmp"] else ("ins" if r["insert"] else "nav")
+
+
+def same_visible(a, b):
+    return all(a[k] == b[k] for k in ("text", "cur", "clip", "regs", "insert", "tmp", "pending", "err"))
+
+
+def check_double(before, g, after, keys):
+    """`N>>` `N<<`: only the lines [row, row + N) change (one indent unit); `guu` `gUU` `g~~`: only
+    the cursor line changes, into its image; clipboard and registers untouched"""
+    text, cur, nt = before["text"], before["cur"], after["text"]
+    count = 1 if g[1] is None or g[1] >= 1000000 else g[1]
+    v = []
+
+    def bad(cond, msg):
+        v.append({"signature": f"doubled operator {g[2]} | {cond}",
+                  "msg": f"{msg}: text={text!r} cur={cur} keys={keys!r} -> text={nt!r} cur={after['cur']}"})
+
+    if after["clip"] != before["clip"] or after["regs"] != before["regs"]:
+        bad("register touched", "a case/indent command wrote to a register")
+    row = row_of(text, cur)
+    lines, nlines = text.split("\n"), nt.split("\n")
+    if len(lines) != len(nlines):
+        bad("line count", "the number of lines changed")
+        return v
+    for i, (l0, l1) in enumerate(zip(lines, nlines)):
+        if g[2] in (">>", "<<"):
+            inside = row <= i < row + count
+        else:
+            inside = i == row
+        if not inside:
+            if l0 != l1:
+                bad("outside span changed", f"line {i} outside the addressed lines changed")
+                break
+        elif g[2] == ">>":
+            if l1 != "    " + l0:
+                bad("inside span", f"line {i} is not indent+line")
+                break
+        elif g[2] == "<<":
+            if not l0.endswith(l1) or l0[:len(l0) - len(l1)].strip() != "":
+                bad("inside span", f"unindent removed non-blank characters on line {i}")
+                break
+        elif l1 != TF[{"guu": "gu", "gUU": "gU", "g~~": "g~"}[g[2]]](l0):
+            bad("inside span", f"line {i} is not the transformed line")
+            break
+    return v
+
+
+def oracle_sess(case):
+    """the property over one session on the real editor, no model involved:
+      (1) history independence: the keys typed between two points where no operator is pending and
+          no count has been started do to the buffer exactly what the same keys do when typed into
+          a fresh editor holding the same text, cursor, clipboard, registers, last character find
+          and mode (the span of an operator is a function of the document and the command's own
+          counts and motion, not of earlier commands);
+      (2) every whole `[count]["x]operator[count]motion` group that starts at such a point satisfies
+          the single-command property (check_op) with respect to the state it started from.
+    (That Escape / a completed or failed text object leave no operator and no count behind is
+    internal state: compared with the model in the correspondence, visible here through (1).)"""
+    if not track(case):
+        return []
+    snaps = run_session(case)
+    groups = case["ops"]
+    v = []
+    if any(r["err"] for r in snaps):
+        r = next(r for r in snaps if r["err"])
+        return [{"signature": "vi session | exception " + r["err"],
+                 "msg": f"text={case['text']!r} cur={case['cur']} keys={[group_keys(g) for g in groups]!r} raised {r['err']}"}]
+    # (1) and (2): segments between quiescent points
+    start = 0
+    for i in range(len(groups)):
+        end_snap = snaps[i + 1] if i + 1 < len(groups) else snaps[-1]
+        if not quiescent(end_snap):
+            continue
+        seg = groups[start:i + 1]
+        before = snaps[start]
+        start0, start = start, i + 1
+        keys = "".join(group_keys(g) for g in seg)
+        regs0 = dict(before["regs"])
+        clip0 = [before["clip"][0], before["clip"][1]]
+        if start0 > 0:
+            fresh = drive_groups(before["text"], before["cur"], clip0, seg, bool(case.get("flush")), regs=regs0,
+                                 lf=before["lf"], mode=snap_mode(before), screen=case.get("screen"))
+            if not same_visible(fresh, end_snap):
+                v.append({"signature": "vi session | the result depends on earlier commands",
+                          "msg": f"text={before['text']!r} cur={before['cur']} keys={keys!r} typed after "
+                                 f"{[group_keys(g) for g in groups[:start0]]!r} -> text={end_snap['text']!r} cur={end_snap['cur']} "
+                                 f"clip={end_snap['clip']!r} regs={end_snap['regs']!r}; the same keys in a fresh editor with the same "
+                                 f"text, cursor and registers -> text={fresh['text']!r} cur={fresh['cur']} clip={fresh['clip']!r} "
+                                 f"regs={fresh['regs']!r}"})
+        if len(seg) == 1 and seg[0][0] == "dbl" and snap_mode(before) == "nav":
+            v += check_double(before, seg[0], end_snap, keys)
+        if len(seg) == 1 and seg[0][0] == "cmd" and snap_mode(before) == "nav":
+            op = list(seg[0][1:])
+            m = op[4:]
+            if m[0] in REPEAT and before["lf"] is not None:
+                # the last character find as the single-command checks name it: [;|, f|F c count]
+                op = op[:4] + [m[0], "F" if before["lf"][1] else "f", before["lf"][0], None]
+            elif m[0] in REPEAT:
+                op = op[:4] + [m[0]]
+            if op[2] is not None and not is_reg_name(op[2]):
+                v += check_bad_register({"text": before["text"], "cur": before["cur"], "clip": clip0}, op, end_snap,
+                                        keys=keys, regs0=regs0)
+                continue
+            pc = {"text": before["text"], "cur": before["cur"], "clip": clip0, "regs0": regs0,
+                  "screen": case.get("screen")}
+            r = dict(end_snap, base_cur=before["cur"])
+
+            def dref(op=op, before=before, clip0=clip0, regs0=regs0):
+                dop = [op[0], "d", None, op[3]] + list(seg[0][5:])
+                return drive(before["text"], before["cur"], clip0, op_keys(dop), regs=regs0, lf=before["lf"],
+                             screen=case.get("screen"))
+
+            v += check_op(pc, op, r, dref, keys=keys)
+    seen, out = set(), []
+    for x in v:
+        if x["signature"] not in seen:
+            seen.add(x["signature"])
+            out.append(x)
+    return out
+
+
+# ------------------------------------------------------------------ visual mode (one excursion)
+# {"k": "vis", "text", "cur", "clip", "lf", "screen", "ty": 0|1|2 (v / V / c-v),
+#  "ops": [["mv", count|None, *motion] | ["j"|"k", count|None] ..., ["op", count|None, name, reg] | ["esc"]]}
+VIS_ENTER = ["v", "V", "\x16"]
+SEL_TYPES = {SelectionType.CHARACTERS: 0, SelectionType.LINES: 1, SelectionType.BLOCK: 2}
+
+
+def vis_split(case):
+    """(moves, terminal) ; a missing terminal counts as Escape; None when malformed"""
+    ops = case["ops"]
+    term = ["esc"]
+    moves = ops
+    if ops and ops[-1][0] in ("op", "esc"):
+        term, moves = ops[-1], ops[:-1]
+    for g in moves:
+        if g[0] not in ("mv", "j", "k"):
+            return None
+        if g[0] == "mv":
+            m = g[2:]
+            if m[0] in ("j", "k") or (m[0] in REPEAT and len(m) != 1):
+                return None
+            if m[0] in ("0", "G") and g[1] is not None:
+                return None
+    if term[0] == "op" and term[2] in ("gq", "~"):
+        return None
+    return moves, term
+
+
+def vis_move_keys(g):
+    cnt = "" if g[1] is None else str(g[1])
+    return cnt + (g[0] if g[0] in ("j", "k") else motion_keys(g[2:]))
+
+
+def vis_term_keys(term):
+    if term[0] == "esc":
+        return "\x1b"
+    return ("" if term[1] is None else str(term[1])) + ('"' + term[3] if term[3] is not None else "") + term[2]
+
+
+def vis_model_line(case):
+    moves, term = vis_split(case)
+    lf = case.get("lf")
+    head = (f"vis {enc_str(case['text'])} {case['cur']} {enc_str(case['clip'][0])} {case['clip'][1]} "
+            + ("N 0" if lf is None else f"{ord(lf[0])} {1 if lf[1] else 0}") + f" {case['ty']}")
+    pieces = []
+    for g in moves:
+        pieces += digit_pieces(g[1])
+        pieces.append("J" if g[0] == "j" else "K" if g[0] == "k" else "M " + motion_tokens(g[2:], case.get("screen")))
+    if term[0] == "esc":
+        pieces.append("E")
+    else:
+        pieces += digit_pieces(term[1])
+        pieces.append(f"O {term[2]} {opt(None if term[3] is None else ord(term[3]))}")
+    return head + " / " + " / ".join(pieces)
+
+
+_VCACHE = {"case": None, "res": None}
+
+
+def run_vis(case):
+    """(state just before the terminal key incl. the selection, state after it)"""
+    if _VCACHE["case"] is case:
+        return _VCACHE["res"]
+    moves, term = vis_split(case)
+    ed, app, vs = setup(case["text"], case["cur"], case["clip"], lf=case.get("lf"), screen=case.get("screen"))
+    err = None
+    mid = after = None
+    try:
+        ed.feed(VIS_ENTER[case["ty"]])
+        for g in moves:
+            ed.feed(vis_move_keys(g))
+        sel = ed.buffer.selection_state
+        mid = snap(ed, app, vs)
+        mid["sel"] = None if sel is None else (sel.original_cursor_position, SEL_TYPES[sel.type])
+        ed.feed(vis_term_keys(term))
+        ed.flush()
+    except Exception as e:
+        err = type(e).__name__
+        app.key_processor.reset()
+        ed.buffer.exit_selection()
+    after = snap(ed, app, vs, err)
+    after["sel"] = ed.buffer.selection_state is not None
+    ed.buffer.exit_selection()
+    _VCACHE["case"], _VCACHE["res"] = case, (mid, after)
+    return mid, after
+
+
+def clip3(cd):
+    return (cd[0], {"CHARACTERS": 0, "LINES": 1, "BLOCK": 2}[cd[2]])
+
+
+def vis_impl_line(case):
+    mid, r = run_vis(case)
+    if r["err"]:
+        return "err"
+    ed = get_editor()
+    regs = sorted(ed.app.vi_state.named_registers.items())
+    items = [f"{ord(k)} {enc_str(v.text)} {SEL_TYPES[v.type]}" for k, v in regs]
+    c = clip3(r["clip"])
+    return (f"{enc_str(r['text'])} {r['cur']} {enc_str(c[0])} {c[1]} "
+            + " ".join([str(len(items))] + items) + f" {1 if r['insert'] else 0} S{1 if r['sel'] else 0}")
+
+
+def selection_spans(text, cur, orig, ty):
+    """the character ranges a Vi selection covers (independent of the code under test):
+    CHARACTERS: both ends included; LINES: whole lines; BLOCK: the columns between the corners,
+    both included, on every row of the block that is long enough"""
+    a, b = min(cur, orig), max(cur, orig)
+    if ty == 0:
+        return [(a, min(b + 1, len(text)))]
+    if ty == 1:
+        return [(line_start(text, a), line_end(text, b))]
+    r1, r2 = row_of(text, a), row_of(text, b)
+    c1, c2 = sorted([a - line_start(text, a), b - line_start(text, b)])
+    out = []
+    start = 0
+    for i, line in enumerate(text.split("\n")):
+        if r1 <= i <= r2 and c1 <= len(line):
+            out.append((start + c1, start + min(len(line), c2 + 1)))
+        start += len(line) + 1
+    return out
+
+
+def oracle_vis(case):
+    """an operator in visual mode acts on exactly the selected characters: y / d / c store the
+    selection (LINES: the lines without the final newline; BLOCK: the row pieces joined by newlines,
+    type BLOCK) and d / c remove exactly it; case operators change nothing outside the selection
+    (BLOCK: outside the range between its corners -- the code transforms that whole range, see the
+    observation in the report) and indent operators nothing outside its rows; afterwards no
+    selection is left. Escape changes nothing but the cursor."""
+    sp = vis_split(case)
+    if sp is None:
+        return []
+    moves, term = sp
+    mid, r = run_vis(case)
+    keys = VIS_ENTER[case["ty"]] + "".join(vis_move_keys(g) for g in moves) + vis_term_keys(term)
+    v = []
+
+    def bad(site, cond, msg):
+        v.append({"signature": f"{site} | {cond}",
+                  "msg": f"{msg}: text={case['text']!r} cur={case['cur']} keys={keys!r} selection={mid and mid.get('sel')} "
+                         f"cursor={mid and mid['cur']} -> text={r['text']!r} cur={r['cur']} clip={r['clip']!r} regs={r['regs']!r}"})
+
+    if r["err"]:
+        bad("visual mode", "exception " + r["err"], "handler raised")
+        return v
+    if mid is None or mid["sel"] is None:
+        return v
+    text = case["text"]
+    if mid["text"] != text:
+        bad("visual mode", "movement edited the text", "a movement in selection mode changed the text")
+        return v
+    if r["sel"]:
+        bad("visual mode", "selection still active", "the selection survived the operator / Escape")
+    clip_before = (mid["clip"][0], mid["clip"][1])
+    if term[0] == "esc":
+        if r["text"] != text or clip3(r["clip"]) != clip3(mid["clip"]) or r["regs"] != mid["regs"]:
+            bad("visual mode", "Escape changed something", "Escape changed text or registers")
+        return v
+    name, reg = term[2], term[3]
+    orig, ty = mid["sel"]
+    spans = selection_spans(text, mid["cur"], orig, ty)
+    sel_text = "\n".join(text[a:b] for a, b in spans) if ty == 2 else "".join(text[a:b] for a, b in spans)
+    removed = text
+    for a, b in reversed(spans):
+        removed = removed[:a] + removed[b:]
+    if ty == 1:
+        # whole lines: the newline that ends the last selected line goes with them (or, at the
+        # end of the text, the one before the first)
+        a, b = spans[0]
+        if b < len(text):
+            removed = text[:a] + text[b + 1:]
+        else:
+            removed = text[:a]
+    site = "visual " + {"d": "delete", "c": "change", "y": "yank"}.get(name, name)
+    new_clip = clip3(r["clip"])
+    if name in ("d", "c", "y"):
+        if reg is not None and not is_reg_name(reg):
+            return v      # (unknown register names: the known finding of navigation mode)
+        # (named registers are snapshot as (text, LINES?); the clipboard with its full type)
+        stored = new_clip if reg is None else r["regs"].get(reg)
+        if sel_text == "" and ty != 1:
+            pass    # nothing selected (block beyond the line ends): nothing is stored
+        elif stored is None or stored[0] != sel_text or (reg is None and stored[1] != ty) or \
+                (reg is not None and stored[1] != (1 if ty == 1 else 0)):
+            bad(site, "register != selected characters", "the register does not hold exactly the selection")
+        if name == "y":
+            if r["text"] != text:
+                bad(site, "text edited", "yank changed the text")
+        else:
+            if r["text"] != removed:
+                bad(site, "removed != selection", "the text is not the old text minus the selection")
+        return v
+    if new_clip != clip3(mid["clip"]) or r["regs"] != mid["regs"]:
+        bad(site, "register touched", "a case/indent operator wrote to a register")
+    nt = r["text"]
+    if name in TF:
+        if ty == 2:
+            want = text
+            for a, b in spans:
+                want = want[:a] + TF[name](want[a:b]) + want[b:]
+            a, b = min(mid["cur"], orig), min(max(mid["cur"], orig) + 1, len(text))
+            if nt != want:
+                if nt == text[:a] + TF[name](text[a:b]) + text[b:]:
+                    bad("visual block case operator", "characters between the corners outside the block are transformed",
+                        "the whole range between the corners of the block was transformed")
+                else:
+                    bad(site, "outside span changed", "the text is not the old text with the block transformed")
+            return v
+        a, b = spans[0]
+        b = min(b, len(text))
+        tail = len(text) - b
+        if nt[:a] != text[:a] or (tail and nt[-tail:] != text[b:]) or len(nt) < a + tail:
+            bad(site, "outside span changed", f"characters outside the selection [{a},{b}) changed")
+        elif nt[a:len(nt) - tail] != TF[name](text[a:b]):
+            bad(site, "inside span", "the selection is not the transformed selection")
+        return v
+    # > <
+    if ty != 1 and min(mid["cur"], orig) >= len(text):
+        # the selection holds no character (cursor behind the last character): nothing happens
+        if nt != text:
+            bad(site, "empty span", "the selection holds no character but the text changed")
+        return v
+    r1, r2 = row_of(text, min(mid["cur"], orig)), row_of(text, max(mid["cur"], orig))
+    lines, nlines = text.split("\n"), nt.split("\n")
+    if len(lines) != len(nlines):
+        bad(site, "line count", "indent changed the number of lines")
+        return v
+    cnt = 1 if term[1] is None or term[1] >= 1000000 else term[1]
+    bmax = max(mid["cur"], orig)
+    for i, (l0, l1) in enumerate(zip(lines, nlines)):
+        if not (r1 <= i <= r2):
+            if l0 != l1:
+                if ty != 1 and i == r2 + 1 and text[bmax:bmax + 1] == "\n":
+                    bad("visual indent", "the selection ends on a line break: the following line is indented too",
+                        f"line {i} below the selected rows {r1}..{r2} changed")
+                else:
+                    bad(site, "outside span changed", f"line {i} outside the selected rows {r1}..{r2} changed")
+                break
+        elif name == ">":
+            if l1 != "    " * cnt + l0:
+                bad(site, "inside span", f"line {i} is not indent+line")
+                break
+        elif not l0.endswith(l1) or l0[:len(l0) - len(l1)].strip() != "":
+            bad(site, "inside span", f"unindent removed non-blank characters on line {i}")
+            break
+    return v
+
+
+# ------------------------------------------------------------------ visual-mode generators
+VIS_TEXTS = ["abc\ndef\nghi", "ab cd\n\nef g", "a(b c)d", "ab\n", ""]
+VIS_MOVES = [["mv", None, "l"], ["mv", None, "h"], ["mv", None, "w"], ["mv", None, "e"], ["mv", None, "$"],
+             ["mv", None, "0"], ["j", None], ["k", None], ["j", 2], ["mv", None, "iw"], ["mv", None, "ib", "(", ")", "("],
+             ["mv", None, "G"], ["mv", 2, "l"]]
+VIS_TERMS = [["op", None, "d", None], ["op", None, "y", None], ["op", None, "c", None], ["op", None, "y", "a"],
+             ["op", None, "d", "a"], ["op", None, "gU", None], ["op", None, "g~", None], ["op", None, ">", None],
+             ["op", 2, ">", None], ["op", None, "<", None], ["esc"]]
+
+
+def vis_case(text, cur, ty, ops, lf=None, screen=None, clip=None):
+    return {"k": "vis", "text": text, "cur": cur, "clip": clip or ["zz", 0], "lf": lf, "screen": screen, "ty": ty,
+            "ops": [list(g) for g in ops]}
+
+
+def vis_exhaustive(tier, salt):
+    texts = VIS_TEXTS[:2] if tier == "quick" else VIS_TEXTS
+    i = salt
+    for text in texts:
+        curs = range(len(text) + 1) if tier != "quick" else sorted({0, 1, len(text) // 2, max(0, len(text) - 1)})
+        for cur in curs:
+            for ty in (0, 1, 2):
+                for term in VIS_TERMS:
+                    yield vis_case(text, cur, ty, [term])
+                    for m in VIS_MOVES:
+                        yield vis_case(text, cur, ty, [m, term])
+                for m1 in VIS_MOVES:
+                    for m2 in VIS_MOVES:
+                        i += 1
+                        yield vis_case(text, cur, ty, [m1, m2, VIS_TERMS[i % len(VIS_TERMS)]])
+
+
+def vis_random(rng, n):
+    for _ in range(n):
+        text = rand_text(rng)
+        cur = rng.choice([0, len(text), rng.randrange(0, len(text) + 1), rng.randrange(0, len(text) + 1)])
+        moves = []
+        for _ in range(rng.randrange(0, 5)):
+            r = rng.randrange(6)
+            if r < 2:
+                moves.append([rng.choice(["j", "k"]), rng.choice([None, None, 2, 3])])
+            else:
+                m = rand_motion(rng)
+                while m[0] in ("j", "k") or (m[0] in REPEAT and len(m) != 1) or \
+                        (m[0] in "fFtT" and len(m) == 2 and m[1] in ("\n", "\t")):
+                    m = rand_motion(rng)
+                moves.append(["mv", None if m[0] in ("0", "G") else rng.choice([None, None, 2, 3])] + m)
+        if rng.randrange(8) == 0:
+            term = ["esc"]
+        else:
+            name = rng.choice(OPS)
+            term = ["op", rng.choice([None, None, 2, 3]), name,
+                    rng.choice([None, None, "a", "7", "A"]) if name in ("d", "c", "y") else None]
+        lf = rng.choice([None, None, [rng.choice(["a", "x", " ", "."]), rng.randrange(2)]])
+        clip = rng.choice([["zz", 0], ["", 0], ["old\nline", 1]])
+        yield vis_case(text, cur, rng.randrange(3), moves + [term], lf, rand_screen(rng), clip)
+
+
+# ------------------------------------------------------------------ session generators
+SESS_TEXTS = ["ab cd ef gh ij kl", "a b\nc d\ne f\ng h", "x.x.x.x x", "ab\n\n  cd\nef", "(a) (b) c", ""]
+
+
+def _cmd(oa, name, reg, ma, *m):
+    return ["cmd", oa, name, reg, ma] + list(m)
+
+
+# the session alphabet: counted / uncounted commands of every operator class, failing motions,
+# movements, and the pieces of aborted commands
+SESS_CMDS = [_cmd(None, "d", None, None, "w"), _cmd(2, "d", None, None, "w"), _cmd(None, "d", None, 2, "w"),
+             _cmd(2, "d", None, 3, "w"), _cmd(3, "y", None, None, "l"), _cmd(None, "g~", None, None, "l"),
+             _cmd(2, ">", None, None, "j"), _cmd(None, ">", None, None, "j"), _cmd(None, "<", None, None, "j"),
+             _cmd(2, "y", "a", None, "w"), _cmd(None, "d", "a", None, "w"), _cmd(None, "c", None, None, "w"),
+             _cmd(2, "c", None, None, "l"), _cmd(None, "d", None, None, "f", "x"), _cmd(3, "d", None, None, "f", "x"),
+             _cmd(None, "d", None, None, ";"), _cmd(None, "y", None, None, ","), _cmd(2, "gU", None, None, "e"),
+             _cmd(None, "d", None, None, "h"), _cmd(None, "d", None, None, "k"), _cmd(None, "y", None, None, "$"),
+             _cmd(None, "g?", None, None, "iw"), _cmd(None, "d", None, None, "ib", "(", ")", "(")]
+SESS_MOVES = [["mv", None, "w"], ["mv", 2, "l"], ["mv", None, "f", "x"], ["mv", None, ";"], ["mv", None, "b"]]
+SESS_DOUBLES = [["dbl", None, ">>"], ["dbl", 2, ">>"], ["dbl", None, "<<"], ["dbl", None, "gUU"], ["dbl", 3, "g~~"],
+                ["dbl", None, "guu"]]
+SESS_PARTS = [["n", 2], ["o", "d", None], ["o", "y", None], ["o", "gu", None], ["o", "c", "b"], ["esc"], ["co"],
+              ["Z"], ["ins", "x y"]]
+SESS_ALPHA = SESS_CMDS + SESS_MOVES + SESS_PARTS + SESS_DOUBLES[:3]
+# triples: a counted start, something in between, an uncounted operator
+SESS_FIRST = [g for g in SESS_CMDS if g[1] is not None or g[4] is not None] + [["n", 3], ["o", "d", None]]
+SESS_MID = [["Z"], ["co"], ["n", 2], ["o", "y", None], ["esc"], ["mv", None, "w"], _cmd(None, "d", None, None, "k"),
+            _cmd(None, "y", None, None, "f", "q"), ["mv", None, "f", "x"], _cmd(None, "c", None, None, "l")]
+SESS_LAST = [g for g in SESS_CMDS if g[1] is None and g[4] is None] + [["mv", None, "w"], ["mv", None, "iw"], ["esc"]]
+
+
+def sess_case(text, cur, ops, flush, lf=None, mode="nav", clip=None, screen=None):
+    return {"k": "sess", "text": text, "cur": cur, "clip": clip or ["zz", 0], "lf": lf, "mode": mode,
+            "flush": flush, "screen": screen, "ops": [list(g) for g in ops]}
+
+
+def sess_cursors(text):
+    n = len(text)
+    return sorted({0, n // 3, max(0, n - 1)})
+
+
+def sess_exhaustive(tier, salt):
+    texts = SESS_TEXTS[:2] if tier == "quick" else SESS_TEXTS
+    i = salt
+    for text in texts:
+        for cur in sess_cursors(text):
+            for a in SESS_ALPHA:
+                for b in SESS_ALPHA:
+                    i += 1
+                    c = sess_case(text, cur, [a, b], i % 2)
+                    if track(c):
+                        yield c
+    # the doubled forms, alone and after a counted operator / a dropped count
+    for text in SESS_TEXTS:
+        for cur in sess_cursors(text):
+            for dbl in SESS_DOUBLES:
+                for pre in ([], [_cmd(3, "y", None, None, "l")], [["n", 3], ["co"]], [["o", "d", None], ["esc"]]):
+                    i += 1
+                    c = sess_case(text, cur, pre + [dbl], i % 2)
+                    if track(c):
+                        yield c
+    texts = SESS_TEXTS[:1] if tier == "quick" else SESS_TEXTS[:5]
+    for text in texts:
+        for cur in sess_cursors(text)[:2 if tier == "quick" else 3]:
+            for a in SESS_FIRST:
+                for b in SESS_MID:
+                    for c3 in SESS_LAST:
+                        i += 1
+                        c = sess_case(text, cur, [a, b, c3], i % 2)
+                        if track(c):
+                            yield c
+
+
+def rand_group(rng):
+    r = rng.randrange(20)
+    if r < 9:
+        op = rand_op(rng)
+        while is_extra(op) or (op[4] in REPEAT and len(op) != 5):
+            op = rand_op(rng)
+        if rng.randrange(3):
+            op[0] = rng.choice([None, None, 2, 3])
+            op[3] = rng.choice([None, None, 2, 3]) if op[4] not in ("0", "G") else None
+        return ["cmd"] + op
+    if r < 12:
+        m = rand_motion(rng)
+        while m[0] in EXTRA_MOTIONS or (m[0] in REPEAT and len(m) != 1) or \
+                (m[0] in "fFtT" and len(m) == 2 and m[1] in ("\n", "\t")):
+            m = rand_motion(rng)
+        return ["mv", None if m[0] in ("0", "G") else rng.choice([None, None, 2, 3, 10])] + m
+    if r < 14:
+        return ["n", rng.choice([2, 3, 4, 10, 25])]
+    if r < 16:
+        name = rng.choice(OPS)
+        return ["o", name, rng.choice([None, None, "a", "q", "Q"]) if name in ("d", "c", "y") else None]
+    if r < 17:
+        return ["esc"]
+    if r < 18:
+        return ["co"]
+    if r < 19:
+        return rng.choice([["Z"], [rng.choice(["dbl"]), rng.choice([None, None, 2, 3]),
+                                   rng.choice([">>", "<<", "guu", "gUU", "g~~"])]])
+    return ["ins", "".join(rng.choice(["x", "y", " ", "Q", ".", "("]) for _ in range(rng.randrange(1, 4)))]
+
+
+def sess_random(rng, n):
+    made = 0
+    while made < n:
+        text = rand_text(rng)
+        cur = rng.choice([0, len(text), rng.randrange(0, len(text) + 1), rng.randrange(0, len(text) + 1)])
+        flush = rng.randrange(2)
+        mode = rng.choice(["nav"] * 6 + ["ins", "tmp"])
+        lf = rng.choice([None, None, [rng.choice(["a", "x", " ", "."]), rng.randrange(2)]])
+        clip = rng.choice([["zz", 0], ["", 0], ["old\nline", 1]])
+        scr = rand_screen(rng)
+        ops = []
+        want = rng.randrange(2, 9)
+        tries = 0
+        while len(ops) < want and tries < 60:
+            tries += 1
+            g = rand_group(rng)
+            if track(sess_case(text, cur, ops + [g], flush, lf, mode, clip)):
+                ops.append(g)
+        if len(ops) >= 2:
+            made += 1
+            yield sess_case(text, cur, ops, flush, lf, mode, clip, scr)
+
+
 def sample_view(case):
+    if case["k"] == "vis":
+        sp = vis_split(case)
+        return dict(case, keys=None if sp is None else
+                    VIS_ENTER[case["ty"]] + "".join(vis_move_keys(g) for g in sp[0]) + vis_term_keys(sp[1]))
+    if case["k"] == "sess":
+        return dict(case, ops=[group_keys(g) for g in case["ops"]])
     if case["k"] == "raw":
         return dict(case, tos=case["tos"][:4] + [f"... {len(case['tos'])} TextObjects"])
     return dict(case, ops=[op_keys(o) for o in case["ops"][:6]] + [f"... {len(case['ops'])} operator runs, each from a fresh state"])
@@ -881,7 +1908,21 @@ def distribution(cases):
         n = len(c["text"])
         key = str(n) if n < 6 else "6+"
         d["text_len"][key] = d["text_len"].get(key, 0) + 1
-        if c["k"] == "e2e":
+        if c["k"] == "vis":
+            d.setdefault("visual", {})
+            sp = vis_split(c)
+            key = ["v", "V", "c-v"][c["ty"]] + " " + ("?" if sp is None else sp[1][0] if sp[1][0] == "esc" else sp[1][2])
+            d["visual"][key] = d["visual"].get(key, 0) + 1
+        elif c["k"] == "sess":
+            d.setdefault("session_groups", {})
+            d.setdefault("session_len", {})
+            d["session_len"][str(len(c["ops"]))] = d["session_len"].get(str(len(c["ops"])), 0) + 1
+            for g in c["ops"]:
+                d["session_groups"][g[0]] = d["session_groups"].get(g[0], 0) + 1
+                if g[0] == "cmd":
+                    d["operators"][g[2] + ('"' if g[3] else "")] = d["operators"].get(g[2] + ('"' if g[3] else ""), 0) + 1
+                    d["motions"][g[5]] = d["motions"].get(g[5], 0) + 1
+        elif c["k"] == "e2e":
             for op in c["ops"]:
                 d["operators"][op[1] + ('"' if op[2] else "")] = d["operators"].get(op[1] + ('"' if op[2] else ""), 0) + 1
                 d["motions"][op[4]] = d["motions"].get(op[4], 0) + 1
